@@ -111,7 +111,7 @@ pub fn ref_filter(spec: &FilterSpec, rs: &RefSentence, n_tags: usize) -> RefSent
 
 const CLUSTERS: &[&str] = &[
     "👨\u{200d}👩\u{200d}👧", "🇯🇵", "🇯🇵🇺", "が\u{3099}", "e\u{0301}", "\r\n", "\n\r", "👍🏽", "각", "ᄀ\u{1161}\u{11a8}", "a\u{200d}", "\u{200d}👩",
-    "क्\u{200d}ष", "\u{0600}a",
+    "क्\u{200d}ष", "\u{0600}a", "कि", "ก\u{0e33}", "\u{0903}",
 ];
 
 fn c15_sentence(rng: &mut Rng) -> RefSentence {
@@ -179,6 +179,12 @@ fn c15_rules(rng: &mut Rng, rs: &RefSentence) -> Vec<(String, Vec<Option<String>
 }
 
 pub fn apply_and_check(ctx: &mut Ctx, prop: &str, spec: &FilterSpec, rs: &RefSentence) -> Option<RefSentence> {
+    apply_and_check_with(ctx, prop, spec, rs, false)
+}
+
+/// `via_fallback`: `rs` must be the documented fallback sentence (one space); the object is brought
+/// into that state by a rejected update on a sentence that carried tags.
+pub fn apply_and_check_with(ctx: &mut Ctx, prop: &str, spec: &FilterSpec, rs: &RefSentence, via_fallback: bool) -> Option<RefSentence> {
     let n_tags = rs.max_tags();
     let detail = |extra: Vec<(&str, J)>| {
         let mut kv = vec![("filter", J::s(spec.name())), ("sentence", ref_json(rs))];
@@ -190,7 +196,13 @@ pub fn apply_and_check(ctx: &mut Ctx, prop: &str, spec: &FilterSpec, rs: &RefSen
     };
     let r = guard(|| {
         let f = spec.build();
-        let mut s = build_sentence(rs);
+        let mut s = if via_fallback {
+            let mut s: vaporetto::Sentence<'static, 'static> = vaporetto::Sentence::from_tokenized("ab/X/Y c/Z").unwrap();
+            let _ = s.update_raw(String::new());
+            s
+        } else {
+            build_sentence(rs)
+        };
         f.filter(&mut s);
         let once = observe(&s, false);
         f.filter(&mut s);
@@ -273,6 +285,19 @@ pub fn run_c15(ctx: &mut Ctx, from: u64, to: u64) {
                 ctx.count(&format!("filter_changed_something:{}", spec.name()), u64::from(changed));
             }
         }
+        if k % 50 == 3 {
+            // the blank sentence left behind by a rejected update on a tagged object, through every filter
+            let fb = RefSentence { chars: vec![' '], labels: vec![], tags: vec![vec![]] };
+            let mut fspecs: Vec<FilterSpec> = (0..6).map(FilterSpec::WsConst).collect();
+            fspecs.push(FilterSpec::Linebreaks);
+            fspecs.push(FilterSpec::Graphemes);
+            fspecs.push(FilterSpec::Tagger(vec![("x".to_string(), vec![Some("R".to_string())])]));
+            for spec in &fspecs {
+                apply_and_check_with(ctx, "C15", spec, &fb, true);
+            }
+            ctx.count("fallback_sentences_filtered", 1);
+        }
+        ctx.flag("sentences_where_extended_and_legacy_clusters_differ", s.graphemes(true).count() != s.graphemes(false).count());
         ctx.nontrivial(fnv(format!("{:?}", rs).as_bytes()));
         if ctx.want_sample() {
             ctx.sample(J::obj(vec![("sentence", ref_json(&rs)), ("filters", J::A(specs.iter().map(|s| J::s(s.name())).collect()))]));
